@@ -128,3 +128,111 @@ def wellformed_problem(o: Obs) -> Optional[str]:
 
 def normalise_calls(calls: List[Any]) -> List[str]:
     return sorted(repr(model.normalise(c)) for c in calls)
+
+
+# ---------------------------------------------------------------------------------------------------
+# model comparison (C02 / C03 / C11-C13 share it)
+
+LEAK_MARKERS = ('Zq7_marker_', 'Traceback', 'Xq9Error', 'world.py', 'probe misuse')
+
+
+def compare(o: Obs, exp: 'model.Expected', doc_in: Any) -> List[Tuple[str, str]]:
+    """Differences between an observation and the model's expectation, as (aspect, detail) pairs.
+    aspects: raise, count, id, kind, result, code, message, data, leak, exec"""
+    out: List[Tuple[str, str]] = []
+    if o.status == 'exc':
+        return [('raise', type(o.exc).__name__)]
+    # executions
+    want = sorted(repr(model.normalise(c)) for c in exp.executions)
+    got = normalise_calls(o.calls)
+    if want != got:
+        extra = [c for c in got if c not in want]
+        missing = [c for c in want if c not in got]
+        if len(got) > len(want) and not missing:
+            detail = 'extra-or-repeated-execution'
+        elif len(got) < len(want) and not extra:
+            detail = 'missing-execution'
+        else:
+            detail = 'different-arguments-or-method'
+        out.append(('exec', f'{exp.kind.split(":")[0]}:{detail}'))
+    e = exp.response
+    if e is None:
+        if o.raw is not None and not exp.null_id_calls:
+            out.append(('count', f'{exp.kind.split(":")[0]}:answered-although-nothing-expected'))
+        return out
+    if o.raw is None:
+        out.append(('count', f'{exp.kind.split(":")[0]}:nothing-returned'))
+        return out
+    if o.doc_problem or o.doc is None:
+        out.append(('count', 'unreadable-response'))
+        return out
+    d = o.doc
+    if isinstance(e, list) != isinstance(d, list):
+        out.append(('count', f'{exp.kind.split(":")[0]}:array-vs-object'))
+        return out
+    pairs = list(zip(e, d)) if isinstance(e, list) else [(e, d)]
+    if isinstance(e, list) and len(e) != len(d):
+        if exp.null_id_calls and len(d) == len(e) + exp.null_id_calls:
+            return out   # explicit "id": null elements answered: permitted reading, not judged further
+        out.append(('count', f'batch:{len(d)}-responses-for-{len(e)}-calls'))
+        return out
+    for er, dr in pairs:
+        if not isinstance(dr, dict):
+            out.append(('kind', 'response-not-object'))
+            continue
+        if 'id' not in dr or not strictjson.typed_eq(er['id'], dr['id']):
+            out.append(('id', f'expected-{type(er["id"]).__name__}-got-{type(dr.get("id")).__name__}'))
+        if ('result' in er) != ('result' in dr) or ('error' in er) != ('error' in dr):
+            want_kind = 'result' if 'result' in er else f"error{er['error']['code']}"
+            got_kind = 'result' if 'result' in dr else f"error{dr.get('error', {}).get('code') if isinstance(dr.get('error'), dict) else '?'}"
+            out.append(('kind', f'expected-{want_kind}-got-{got_kind}'))
+            continue
+        if 'result' in er:
+            r = model.match(er['result'], dr['result'])
+            if r:
+                out.append(('result', r))
+            continue
+        ee, de = er['error'], dr['error']
+        if not isinstance(de, dict):
+            out.append(('code', 'error-not-object'))
+            continue
+        if not (isinstance(de.get('code'), int) and not isinstance(de.get('code'), bool)) or de.get('code') != ee['code']:
+            out.append(('code', f"expected{ee['code']}-got{safe_code(de.get('code'))}"))
+            continue
+        tag = f"code{ee['code']}" if -32768 <= ee['code'] <= -32000 else 'app-code'
+        r = model.match(ee['message'], de.get('message'))
+        if r:
+            out.append(('message', f"{tag}:{r}"))
+        if 'data' in ee:
+            if ee['data'] is not model.ANY:
+                if 'data' not in de:
+                    out.append(('data', f"{tag}:dropped:{type(ee['data']).__name__}"))
+                else:
+                    r = model.match(ee['data'], de['data'])
+                    if r:
+                        out.append(('data', f"{tag}:{r}"))
+        elif 'data' in de and ee['code'] != -32000:
+            out.append(('data', f"{tag}:added"))
+    if o.text is not None and any(k in ('call-exception', 'notify-exception') for k in exp.elem_kinds):
+        for m in LEAK_MARKERS:
+            if m in o.text:
+                out.append(('leak', m))
+        for k, call in zip(exp.elem_kinds, []):
+            pass
+        for name in _exception_names(exp):
+            if name in o.text:
+                out.append(('leak', 'exception-type-name'))
+                break
+    return out
+
+
+def _exception_names(exp: 'model.Expected') -> List[str]:
+    names = []
+    for c in exp.executions:
+        if c[0] == 'boom' and isinstance(c[1][0], str):
+            names.append(c[1][0])
+    return names
+
+
+def safe_code(c: Any) -> str:
+    return str(c) if isinstance(c, int) and abs(c) < 10 ** 12 else type(c).__name__
